@@ -196,27 +196,29 @@ def symbol_models():
         for param in (False, True):
             for assigned in (False, True):
                 for nonlocal_ in (False, True):
-                    if param and scope not in ("LOCAL", "CELL"):
-                        continue
-                    if nonlocal_ and scope != "FREE":
-                        continue
-                    if scope == "GLOBAL_EXPLICIT" and False:
-                        continue
-                    out.append({
-                        "scope": scope, "is_parameter": param, "is_assigned": assigned,
-                        "is_nonlocal": nonlocal_,
-                        "is_local": scope in ("LOCAL", "CELL"),
-                        "is_free": scope == "FREE",
-                        "is_global": scope.startswith("GLOBAL"),
-                        "is_declared_global": scope == "GLOBAL_EXPLICIT",
-                    })
+                    for imported in (False, True):
+                        if param and scope not in ("LOCAL", "CELL"):
+                            continue
+                        if nonlocal_ and scope != "FREE":
+                            continue
+                        # an import binds the name: the name is local unless declared global/nonlocal
+                        if imported and not (scope in ("LOCAL", "CELL", "GLOBAL_EXPLICIT") or nonlocal_):
+                            continue
+                        out.append({
+                            "scope": scope, "is_parameter": param, "is_assigned": assigned,
+                            "is_nonlocal": nonlocal_, "is_imported": imported,
+                            "is_local": scope in ("LOCAL", "CELL"),
+                            "is_free": scope == "FREE",
+                            "is_global": scope.startswith("GLOBAL"),
+                            "is_declared_global": scope == "GLOBAL_EXPLICIT",
+                        })
     return out
 
 
-SYMBOL_PREDS = ("is_declared_global", "is_global", "is_local", "is_free", "is_nonlocal", "is_parameter", "is_assigned")
+SYMBOL_PREDS = ("is_declared_global", "is_global", "is_local", "is_free", "is_nonlocal", "is_parameter", "is_assigned", "is_imported")
 
 
-def classify_key(key):
+def classify_key(key, comp_attrs=()):
     """Decision key of a namespace method -> abstract predicate name."""
     for p in SYMBOL_PREDS:
         if f".{p}()" in key:
@@ -225,7 +227,7 @@ def classify_key(key):
         return ("mem", "OUT")
     if "inner_nonlocal_names" in key:
         return ("mem", "INN")
-    if "target_names" in key or "comp_stack" in key:
+    if "target_names" in key or "comp_stack" in key or any(f".{a}" in key for a in comp_attrs):
         return ("mem", "COMP")
     if "globals_used_in_comp" in key:
         return ("mem", "GUC")
@@ -466,6 +468,10 @@ def rule_r3(ctx):
     root, leaves, glob = T.namespace_leaves()
     models = symbol_models()
     pop_local, pop_if = _pop_implies_local(ctx)
+    try:
+        comp_attrs = [a for a, (o, c) in _comp_registry(ctx).items() if o]
+    except AnalysisError:
+        comp_attrs = []
     for ci in leaves:
         rr.instances += 1
         st = T.namespace_method(ci, "get_assign")
@@ -476,7 +482,7 @@ def rule_r3(ctx):
                 for k in pr.assign:
                     if k not in keys:
                         keys.append(k)
-        classes = {k: classify_key(k) for k in keys}
+        classes = {k: classify_key(k, comp_attrs) for k in keys}
         others = [k for k, c in classes.items() if c[0] == "other"]
         if others:
             raise AnalysisError(f"C06-R3: decision list of {ci.name} tests a predicate the oracle does not know: {others[:3]}")
@@ -859,21 +865,69 @@ def rule_r7(ctx):
     return rr
 
 
+def _comp_registry(ctx):
+    """Where the comprehension wrappers register themselves in the namespace while they are open:
+    {attribute of self.nsp: (kinds of effect in the constructor, kinds of effect in get_result)}."""
+    from .exprcopy import all_expr_paths
+
+    reg = {}
+    n_paths = 0
+    for kind in SCOPE_KINDS[1:]:
+        for pr in all_expr_paths(ctx).get(kind, []):
+            if pr.outcome != "ok":
+                continue
+            n_paths += 1
+            for e in pr.effects:
+                if e.get("obj") == "self.nsp" and e["kind"] in MUTATING_EFFECTS:
+                    opened, closed = reg.setdefault(e["attr"], (set(), set()))
+                    (opened if e.get("phase") == 0 else closed).add(e["kind"])
+    if not n_paths:
+        raise AnalysisError("C06-R9: no comprehension path of the expression rewriter could be analysed")
+    return reg
+
+
+MUTATING_EFFECTS = {
+    "append", "extend", "insert", "pop", "remove", "clear", "add", "update", "discard",
+    "difference_update", "intersection_update", "symmetric_difference_update", "__setitem__", "__delitem__",
+}
+
+
 def rule_r9(ctx):
     rr = RuleResult("C06-R9", "a name read inside nested comprehensions is tested against the targets of EVERY open comprehension")
     rr.floor = 2
     T = ctx.tmpl
     root, leaves, glob = T.namespace_leaves()
+    reg = _comp_registry(ctx)
+    rr.instances += 1
+    if not reg:
+        rr.fail("C06-R9|PendingComp|not-registered", "the comprehension wrapper does not register its targets in the namespace while it is open", what="registry")
+    for attr, (opened, closed) in sorted(reg.items()):
+        what = f"registry|{attr}"
+        if not opened:
+            continue
+        if opened <= {"append"} and closed == {"pop"}:
+            rr.ok(what, sample={"rule": "C06-R9", "registry": f"nsp.{attr}", "discipline": "stack: pushed by the constructor, popped by get_result"})
+        elif not closed:
+            rr.fail(f"C06-R9|PendingComp|{attr}|never-closed", f"the comprehension wrapper registers in nsp.{attr} ({sorted(opened)}) but get_result never removes the entry: after the comprehension its target names are still read as plain names", what=what)
+        elif opened <= {"add", "update", "extend"} and closed <= {"discard", "remove", "difference_update"}:
+            rr.fail(
+                f"C06-R9|PendingComp|{attr}|closed-by-name",
+                f"the open comprehensions share one flat collection nsp.{attr} and get_result removes the NAMES of the comprehension being closed ({sorted(closed)}): closing an inner comprehension also forgets an enclosing comprehension's variable of the same name (`[[x for x in r] and x for x in s]` then reads the function's/class's x)",
+                what=what,
+            )
+        else:
+            raise AnalysisError(f"C06-R9: cannot classify the open/close discipline of nsp.{attr}: {sorted(opened)} / {sorted(closed)}")
+    attrs = [a for a, (o, c) in reg.items() if o]
     for ci in leaves:
         if ci is glob:
             continue
         ld = T.namespace_method(ci, "get_load_name")
         rr.instances += 1
-        keys = sorted({k for p in ld.paths for k in p.assign if "target_names" in k})
+        keys = sorted({k for p in ld.paths for k in p.assign if k.startswith("in:") and any(f".{a}" in k for a in attrs)})
         what = f"{ci.name}|comprehension-targets"
         if not keys:
             rr.fail(f"C06-R9|{ci.name}|targets-not-consulted", f"{ci.name}.get_load_name never consults the targets of the open comprehensions: a comprehension variable that shadows a nonlocal/class-level name is read from the dict", where=ci.module.rel, what=what)
-        elif not all("comp_stack[*]" in k for k in keys):
+        elif any(reg[a][0] <= {"append"} for a in attrs if any(f".{a}" in k for k in keys)) and not all("[*]" in k.split(":")[-1] for k in keys):
             rr.fail(
                 f"C06-R9|{ci.name}|innermost-only",
                 f"{ci.name}.get_load_name tests the name only against `{keys[0].split(':')[-1]}`, not against every comprehension on the stack: an inner comprehension that reads the OUTER comprehension's variable gets the enclosing function's/class's variable of the same name",
